@@ -25,6 +25,8 @@ INFORMATIVE = 1e-3      # tolerances above 1e-3 of the data scale decide nothing
 VANISH_FACTOR = 50.0    # |fit(eps-weighted outlier) - fit(without)| <= 50 * eps * |outlier| ...
 LEVERAGE_MAX = 25.0     # ... decided only when the reference cross-leverage |j_q M^-1 j_k| of the datum is <= 25 (exact influence: eps * leverage * residual)
 EPS = ref.EPS
+WEIGHT_MAGNITUDES = (1e-15, 1e-12, 1e-9, 1e-6, 1.0, 1e6, 1e12)   # all weights times this (e.g. 1/sigma^2 with sigma ~ 1e5): absolute-tolerance shortcuts show
+DATA_MAGNITUDES = (1e-15, 1e-12, 1e-9, 1e-6, 1e-3, 1.0, 1e3, 1e6, 1e9, 1e12, 1e15)
 
 RULE = (
     "cases = seeded fits of Trend(0..4), Spline and VectorSpline2D on 3..300 points (uniform, jittered grid, clusters, anisotropic; logical shapes "
@@ -32,7 +34,9 @@ RULE = (
     "independently chosen memory layout / container: C, Fortran, transposed view, strided, negative strides, read-only, pandas Series; the reference "
     "pairs weight k with datum k of the C-order element sequences; coordinate scales 1e-2..1e6, offsets 0..1e3 extents; data magnitudes 1e-3..1e6) with weights None or 10^[-3,1] per datum (different "
     "per vector component), damping None or 10^[-8,2], forces at the data or at a separate set of ceil(n/4)..n points, Poisson ratio in [-1,1], "
-    "mindist 0 or small (Spline) / >0 (VectorSpline2D); each fit is followed by predictions at the data and at 20 query points inside the data "
+    "mindist 0 or small (Spline) / >0 (VectorSpline2D); MAGNITUDE classes: all weights times 1e-15, 1e-12, 1e-9, 1e-6, 1, 1e6, 1e12 (stream wmag: every "
+    "estimator configuration x every magnitude, undamped ones also against the fit with the unscaled weights) and all data times 1e-15..1e15; undamped "
+    "fits with fewer forces than data and non-uniform weights are counted as their own class; each fit is followed by predictions at the data and at 20 query points inside the data "
     "region. Relations: undamped fits with weights w and c*w (c in 1e-3..1e3); an outlier with weight 1e-4 / 1e-8 against the fit without the datum "
     "(n >= 5 x parameters). Non-trivial = over-determined or damped, and weights non-constant when given; distinct = hash of kind, configuration, "
     "coordinates, data, weights. Fits are binned by decade of the reference condition number of the augmented scaled design."
@@ -50,12 +54,14 @@ ASSUMPTIONS = [
     "the bound 50*eps*|outlier| is decided only when the reference cross-leverage max_q |j_q M^-1 j_k| of the datum is <= 25 (the exact influence is "
     "eps * leverage * residual, so the bound then has a factor 2 of slack); higher-leverage data are skipped and counted",
     "weights are strictly positive and finite, data finite (the statement's quantifier); other fits are skipped",
+    "the reference uses the weights exactly as given at every magnitude (damped fits depend on it); undamped fits are additionally compared with the "
+    "fit for the unscaled relative weights (fit(w) == fit(c w), c spanning 1e-15..1e12)",
     "coordinates, data and weights are flattened in C (row-major) order of the logical arrays whatever their memory layout (what check_fit_input / "
     "n_1d_arrays document via np.ravel); the reference takes np.asarray(arg).ravel() of every argument",
 ]
 FLOORS = {
-    "quick": {'eval:optimality': 1240, 'eval:prediction_agreement': 1830, 'eval:weight_scale_invariance': 90, 'eval:vanishing_weight': 95, 'fit:trend': 450, 'fit:spline': 480, 'fit:vspline': 300, 'informative_undamped_kappa_ge_1e6': 140, 'distinct_nontrivial': 1200, 'layout:weights:2d_fortran': 50, 'layout:weights:2d_transposed_view': 50, 'layout:weights:2d_strided': 55, 'layout:weights:2d_negative_stride': 55, 'layout:weights:2d_readonly_fortran': 50, 'layout:weights:1d_series': 80, 'layout:data:2d_fortran': 65, 'layout:data:2d_transposed_view': 65, 'layout:data:2d_strided': 75, 'layout:data:1d_series': 95, 'layout:coordinates:2d_fortran': 120, 'layout:coordinates:2d_transposed_view': 110, 'layout:coordinates:1d_series': 160, 'layout:force_coords:2d_fortran': 10, 'layout:weights_laid_out_differently_from_data': 540},
-    "thorough": {'eval:optimality': 31000, 'eval:prediction_agreement': 45750, 'eval:weight_scale_invariance': 2250, 'eval:vanishing_weight': 2375, 'fit:trend': 11250, 'fit:spline': 12000, 'fit:vspline': 7500, 'informative_undamped_kappa_ge_1e6': 3500, 'distinct_nontrivial': 30000, 'layout:weights:2d_fortran': 1250, 'layout:weights:2d_transposed_view': 1250, 'layout:weights:2d_strided': 1375, 'layout:weights:2d_negative_stride': 1375, 'layout:weights:2d_readonly_fortran': 1250, 'layout:weights:1d_series': 2000, 'layout:data:2d_fortran': 1625, 'layout:data:2d_transposed_view': 1625, 'layout:data:2d_strided': 1875, 'layout:data:1d_series': 2375, 'layout:coordinates:2d_fortran': 3000, 'layout:coordinates:2d_transposed_view': 2750, 'layout:coordinates:1d_series': 4000, 'layout:force_coords:2d_fortran': 250, 'layout:weights_laid_out_differently_from_data': 13500},
+    "quick": {'eval:optimality': 1240, 'eval:prediction_agreement': 1830, 'eval:weight_scale_invariance': 125, 'eval:vanishing_weight': 95, 'fit:trend': 450, 'fit:spline': 480, 'fit:vspline': 300, 'informative_undamped_kappa_ge_1e6': 140, 'distinct_nontrivial': 1200, 'layout:weights:2d_fortran': 50, 'layout:weights:2d_transposed_view': 50, 'layout:weights:2d_strided': 55, 'layout:weights:2d_negative_stride': 55, 'layout:weights:2d_readonly_fortran': 50, 'layout:weights:1d_series': 80, 'layout:data:2d_fortran': 65, 'layout:data:2d_transposed_view': 65, 'layout:data:2d_strided': 75, 'layout:data:1d_series': 95, 'layout:coordinates:2d_fortran': 120, 'layout:coordinates:2d_transposed_view': 110, 'layout:coordinates:1d_series': 160, 'layout:force_coords:2d_fortran': 10, 'layout:weights_laid_out_differently_from_data': 540, 'class:undamped_fewer_forces_than_data_nonuniform_weights:spline': 159, 'class:undamped_fewer_forces_than_data_nonuniform_weights:vspline': 135, 'data_magnitude:1e+00': 497, 'data_magnitude:1e+03': 48, 'data_magnitude:1e+06': 46, 'data_magnitude:1e+09': 40, 'data_magnitude:1e+12': 40, 'data_magnitude:1e+15': 42, 'data_magnitude:1e-03': 36, 'data_magnitude:1e-06': 42, 'data_magnitude:1e-09': 39, 'data_magnitude:1e-12': 35, 'data_magnitude:1e-15': 38, 'weight_magnitude:1e+00': 324, 'weight_magnitude:1e+06': 38, 'weight_magnitude:1e+12': 36, 'weight_magnitude:1e-06': 28, 'weight_magnitude:1e-09': 38, 'weight_magnitude:1e-12': 37, 'weight_magnitude:1e-15': 34, 'weight_magnitude_class:spline_damped:1e+00': 2, 'weight_magnitude_class:spline_damped:1e+06': 2, 'weight_magnitude_class:spline_damped:1e+12': 2, 'weight_magnitude_class:spline_damped:1e-06': 2, 'weight_magnitude_class:spline_damped:1e-09': 2, 'weight_magnitude_class:spline_damped:1e-12': 2, 'weight_magnitude_class:spline_damped:1e-15': 2, 'weight_magnitude_class:spline_damped_fewer_forces:1e+00': 2, 'weight_magnitude_class:spline_damped_fewer_forces:1e+06': 2, 'weight_magnitude_class:spline_damped_fewer_forces:1e+12': 2, 'weight_magnitude_class:spline_damped_fewer_forces:1e-06': 2, 'weight_magnitude_class:spline_damped_fewer_forces:1e-09': 2, 'weight_magnitude_class:spline_damped_fewer_forces:1e-12': 2, 'weight_magnitude_class:spline_damped_fewer_forces:1e-15': 2, 'weight_magnitude_class:spline_undamped_fewer_forces:1e+00': 2, 'weight_magnitude_class:spline_undamped_fewer_forces:1e+06': 2, 'weight_magnitude_class:spline_undamped_fewer_forces:1e+12': 2, 'weight_magnitude_class:spline_undamped_fewer_forces:1e-06': 2, 'weight_magnitude_class:spline_undamped_fewer_forces:1e-09': 2, 'weight_magnitude_class:spline_undamped_fewer_forces:1e-12': 2, 'weight_magnitude_class:spline_undamped_fewer_forces:1e-15': 2, 'weight_magnitude_class:trend:1e+00': 2, 'weight_magnitude_class:trend:1e+06': 2, 'weight_magnitude_class:trend:1e+12': 2, 'weight_magnitude_class:trend:1e-06': 2, 'weight_magnitude_class:trend:1e-09': 2, 'weight_magnitude_class:trend:1e-12': 2, 'weight_magnitude_class:trend:1e-15': 2, 'weight_magnitude_class:vspline_damped:1e+00': 2, 'weight_magnitude_class:vspline_damped:1e+06': 2, 'weight_magnitude_class:vspline_damped:1e+12': 2, 'weight_magnitude_class:vspline_damped:1e-06': 2, 'weight_magnitude_class:vspline_damped:1e-09': 2, 'weight_magnitude_class:vspline_damped:1e-12': 2, 'weight_magnitude_class:vspline_damped:1e-15': 2, 'weight_magnitude_class:vspline_undamped_fewer_forces:1e+00': 2, 'weight_magnitude_class:vspline_undamped_fewer_forces:1e+06': 2, 'weight_magnitude_class:vspline_undamped_fewer_forces:1e+12': 2, 'weight_magnitude_class:vspline_undamped_fewer_forces:1e-06': 2, 'weight_magnitude_class:vspline_undamped_fewer_forces:1e-09': 2, 'weight_magnitude_class:vspline_undamped_fewer_forces:1e-12': 2, 'weight_magnitude_class:vspline_undamped_fewer_forces:1e-15': 2, 'weight_scale_invariance:magnitude:1e+06': 5, 'weight_scale_invariance:magnitude:1e+12': 5, 'weight_scale_invariance:magnitude:1e-06': 6, 'weight_scale_invariance:magnitude:1e-09': 5, 'weight_scale_invariance:magnitude:1e-12': 5, 'weight_scale_invariance:magnitude:1e-15': 5},
+    "thorough": {'eval:optimality': 31000, 'eval:prediction_agreement': 45750, 'eval:weight_scale_invariance': 3125, 'eval:vanishing_weight': 2375, 'fit:trend': 11250, 'fit:spline': 12000, 'fit:vspline': 7500, 'informative_undamped_kappa_ge_1e6': 3500, 'distinct_nontrivial': 30000, 'layout:weights:2d_fortran': 1250, 'layout:weights:2d_transposed_view': 1250, 'layout:weights:2d_strided': 1375, 'layout:weights:2d_negative_stride': 1375, 'layout:weights:2d_readonly_fortran': 1250, 'layout:weights:1d_series': 2000, 'layout:data:2d_fortran': 1625, 'layout:data:2d_transposed_view': 1625, 'layout:data:2d_strided': 1875, 'layout:data:1d_series': 2375, 'layout:coordinates:2d_fortran': 3000, 'layout:coordinates:2d_transposed_view': 2750, 'layout:coordinates:1d_series': 4000, 'layout:force_coords:2d_fortran': 250, 'layout:weights_laid_out_differently_from_data': 13500, 'class:undamped_fewer_forces_than_data_nonuniform_weights:spline': 3577, 'class:undamped_fewer_forces_than_data_nonuniform_weights:vspline': 3037, 'data_magnitude:1e+00': 11182, 'data_magnitude:1e+03': 1080, 'data_magnitude:1e+06': 1035, 'data_magnitude:1e+09': 900, 'data_magnitude:1e+12': 900, 'data_magnitude:1e+15': 945, 'data_magnitude:1e-03': 810, 'data_magnitude:1e-06': 945, 'data_magnitude:1e-09': 877, 'data_magnitude:1e-12': 787, 'data_magnitude:1e-15': 855, 'weight_magnitude:1e+00': 7290, 'weight_magnitude:1e+06': 855, 'weight_magnitude:1e+12': 810, 'weight_magnitude:1e-06': 630, 'weight_magnitude:1e-09': 855, 'weight_magnitude:1e-12': 832, 'weight_magnitude:1e-15': 765, 'weight_magnitude_class:spline_damped:1e+00': 45, 'weight_magnitude_class:spline_damped:1e+06': 45, 'weight_magnitude_class:spline_damped:1e+12': 45, 'weight_magnitude_class:spline_damped:1e-06': 45, 'weight_magnitude_class:spline_damped:1e-09': 45, 'weight_magnitude_class:spline_damped:1e-12': 45, 'weight_magnitude_class:spline_damped:1e-15': 45, 'weight_magnitude_class:spline_damped_fewer_forces:1e+00': 45, 'weight_magnitude_class:spline_damped_fewer_forces:1e+06': 45, 'weight_magnitude_class:spline_damped_fewer_forces:1e+12': 45, 'weight_magnitude_class:spline_damped_fewer_forces:1e-06': 45, 'weight_magnitude_class:spline_damped_fewer_forces:1e-09': 45, 'weight_magnitude_class:spline_damped_fewer_forces:1e-12': 45, 'weight_magnitude_class:spline_damped_fewer_forces:1e-15': 45, 'weight_magnitude_class:spline_undamped_fewer_forces:1e+00': 45, 'weight_magnitude_class:spline_undamped_fewer_forces:1e+06': 45, 'weight_magnitude_class:spline_undamped_fewer_forces:1e+12': 45, 'weight_magnitude_class:spline_undamped_fewer_forces:1e-06': 45, 'weight_magnitude_class:spline_undamped_fewer_forces:1e-09': 45, 'weight_magnitude_class:spline_undamped_fewer_forces:1e-12': 45, 'weight_magnitude_class:spline_undamped_fewer_forces:1e-15': 45, 'weight_magnitude_class:trend:1e+00': 45, 'weight_magnitude_class:trend:1e+06': 45, 'weight_magnitude_class:trend:1e+12': 45, 'weight_magnitude_class:trend:1e-06': 45, 'weight_magnitude_class:trend:1e-09': 45, 'weight_magnitude_class:trend:1e-12': 45, 'weight_magnitude_class:trend:1e-15': 45, 'weight_magnitude_class:vspline_damped:1e+00': 45, 'weight_magnitude_class:vspline_damped:1e+06': 45, 'weight_magnitude_class:vspline_damped:1e+12': 45, 'weight_magnitude_class:vspline_damped:1e-06': 45, 'weight_magnitude_class:vspline_damped:1e-09': 45, 'weight_magnitude_class:vspline_damped:1e-12': 45, 'weight_magnitude_class:vspline_damped:1e-15': 45, 'weight_magnitude_class:vspline_undamped_fewer_forces:1e+00': 45, 'weight_magnitude_class:vspline_undamped_fewer_forces:1e+06': 45, 'weight_magnitude_class:vspline_undamped_fewer_forces:1e+12': 45, 'weight_magnitude_class:vspline_undamped_fewer_forces:1e-06': 45, 'weight_magnitude_class:vspline_undamped_fewer_forces:1e-09': 45, 'weight_magnitude_class:vspline_undamped_fewer_forces:1e-12': 45, 'weight_magnitude_class:vspline_undamped_fewer_forces:1e-15': 45, 'weight_scale_invariance:magnitude:1e+06': 112, 'weight_scale_invariance:magnitude:1e+12': 112, 'weight_scale_invariance:magnitude:1e-06': 135, 'weight_scale_invariance:magnitude:1e-09': 112, 'weight_scale_invariance:magnitude:1e-12': 112, 'weight_scale_invariance:magnitude:1e-15': 112},
 }
 JOBS = {"quick": 1, "thorough": 16}
 CASE_TIMEOUT_S = 300
@@ -63,8 +69,8 @@ CASE_TIMEOUT_S = 300
 
 def plan(tier):
     if tier == "quick":
-        return collections.OrderedDict(trend=600, spline=700, vspline=280, wscale=240, vanish=240)
-    return collections.OrderedDict(trend=15000, spline=17500, vspline=7000, wscale=6000, vanish=6000)
+        return collections.OrderedDict(trend=600, spline=700, vspline=280, wscale=240, vanish=240, wmag=210)
+    return collections.OrderedDict(trend=15000, spline=17500, vspline=7000, wscale=6000, vanish=6000, wmag=5250)
 
 
 # ----------------------------------------------------------------------
@@ -222,6 +228,11 @@ def install(tap, run):
         run.observe_max("gradient_norm:%s:%s" % (kind, tag), grad)
         if not damped and rec.informative and dec >= 6:
             run.count("informative_undamped_kappa_ge_1e6")
+        if not damped and rows > cols and rec.weights is not None and np.ptp(rec.weights) > 0 and kind != "trend":
+            run.count("class:undamped_fewer_forces_than_data_nonuniform_weights:" + kind)
+        if rec.weights is not None:
+            run.count("fit_weight_magnitude:%s:%s:1e%+03d" % (kind, tag, int(np.floor(np.log10(float(np.median(rec.weights))) / 3) * 3)))
+        run.count("fit_data_magnitude:%s:1e%+03d" % (kind, int(np.floor(np.log10(max(float(np.max(np.abs(rec.data))), 1e-300)) / 3) * 3)))
         nonconstant = rec.weights is None or np.ptp(rec.weights) > 0
         if (rows > cols or damped) and nonconstant and rec.east.size >= 3:
             run.mark_nontrivial(kind, repr(sorted(rec.cfg.items())), rec.east, rec.north, rec.data, rec.weights, rec.force)
@@ -431,11 +442,22 @@ def _make(rng, verde, kind, east, north, damping="random", forces="random", over
         return verde.VectorSpline2D(poisson=poisson, mindist=mindist, damping=damp, force_coords=force), cfg
 
 
-def _data(rng, kind, east, north):
-    d = gen.smooth_field(rng, east, north)
+def _data(rng, kind, east, north, run=None):
+    """Smooth non-separable fields; half of the time all values are multiplied by one of DATA_MAGNITUDES ('all finite data values')."""
+    factor = float(rng.choice(DATA_MAGNITUDES)) if rng.random() < 0.5 else 1.0
+    if run is not None:
+        run.count("data_magnitude:%.0e" % factor)
+    d = gen.smooth_field(rng, east, north) * factor
     if kind != "vspline":
         return d
     return (d, gen.smooth_field(rng, east, north, amplitude=float(np.abs(d).max() or 1.0) * gen.log_uniform(rng, 0.1, 10)))
+
+
+def _weight_magnitude(rng, run=None, p=0.5):
+    factor = float(rng.choice(WEIGHT_MAGNITUDES)) if rng.random() < p else 1.0
+    if run is not None:
+        run.count("weight_magnitude:%.0e" % factor)
+    return factor
 
 
 def _cross_leverage(rec, east_k, north_k, qe, qn):
@@ -477,11 +499,12 @@ def run_case(run, tap, stream, index, rng):
         hi = {"trend": 300, "spline": 300, "vspline": 150}[kind]
         n = _size(rng, 3, hi, big_lo=100 if kind != "vspline" else 50)
         east, north = gen.cloud(rng, n)
-        data = _data(rng, kind, east, north)
+        data = _data(rng, kind, east, north, run)
         est, cfg = _make(rng, verde, kind, east, north, run=run)
         weights = None
         if rng.random() < 0.7:
-            weights = (_weights(rng, n), _weights(rng, n) * gen.log_uniform(rng, 1e-1, 1e1)) if kind == "vspline" else _weights(rng, n)
+            mag = _weight_magnitude(rng, run)
+            weights = (mag * _weights(rng, n), mag * _weights(rng, n) * gen.log_uniform(rng, 1e-1, 1e1)) if kind == "vspline" else mag * _weights(rng, n)
         (e, nn), shaped_data, shaped_w, layouts = _present_fit(run, rng, kind, east, north, data, weights)
         cfg = dict(cfg, layouts=layouts)
         _fit(est, (e, nn), shaped_data, shaped_w)
@@ -506,17 +529,22 @@ def run_case(run, tap, stream, index, rng):
         kind = ["trend", "spline", "vspline"][index % 3]
         n = _size(rng, 6, 200 if kind != "vspline" else 100, big_lo=80 if kind != "vspline" else 40)
         east, north = gen.cloud(rng, n)
-        data = _data(rng, kind, east, north)
+        data = _data(rng, kind, east, north, run)
         state = rng.bit_generator.state
         est1, cfg = _make(rng, verde, kind, east, north, damping=None)
         rng.bit_generator.state = state
         est2, _ = _make(rng, verde, kind, east, north, damping=None)
-        factor = gen.log_uniform(rng, 1e-3, 1e3)
+        mag = _weight_magnitude(rng, run, p=0.3)
+        if rng.random() < 0.5:
+            factor = gen.log_uniform(rng, 1e-3, 1e3)
+        else:  # jump to another magnitude class
+            factor = float(rng.choice(WEIGHT_MAGNITUDES)) / mag * gen.log_uniform(rng, 0.3, 3)
+        run.count("weight_scale_constant:1e%+03d" % int(np.floor(np.log10(factor) / 3) * 3))
         if kind == "vspline":
-            w1 = (_weights(rng, n), _weights(rng, n) * gen.log_uniform(rng, 1e-2, 1e2))
+            w1 = (mag * _weights(rng, n), mag * _weights(rng, n) * gen.log_uniform(rng, 1e-1, 1e1))
             w2 = tuple(factor * w for w in w1)
         else:
-            w1 = _weights(rng, n)
+            w1 = mag * _weights(rng, n)
             w2 = factor * w1
         shape = lay.logical_shape(rng, n)
         c1, d1, sw1, layouts = _present_fit(run, rng, kind, east, north, data, w1, shape)
@@ -567,7 +595,7 @@ def run_case(run, tap, stream, index, rng):
             idx = rng.permutation(side * side)[:m]
             forces = (gx.ravel()[idx].copy(), gy.ravel()[idx].copy())
             degree = None
-        data = _data(rng, kind, east, north)
+        data = _data(rng, kind, east, north, run)
         comps = data if isinstance(data, tuple) else (data,)
         k = int(np.argmin((east - east.mean()) ** 2 + (north - north.mean()) ** 2))  # an interior datum
         spread = max(float(np.ptp(c)) for c in comps) or 1.0
@@ -652,6 +680,67 @@ def run_case(run, tap, stream, index, rng):
         run.mark_nontrivial("vanish", kind, repr(sorted(cfg.items(), key=str)), east, north, [c for c in comps], k, delta)
         run.sample("vanish", {"kind": kind, "config": cfg, "n": n, "datum": k, "outlier": delta, "difference": {str(e): v for e, v in diff.items()},
                               "numerical_tolerance": tol})
+    elif stream == "wmag":
+        # weight-magnitude classes: the same non-uniform relative weights times 1e-15 ... 1e12, for every estimator configuration
+        configs = ["trend", "spline_damped", "spline_undamped_fewer_forces", "vspline_damped", "vspline_undamped_fewer_forces", "spline_damped_fewer_forces"]
+        config = configs[index % len(configs)]
+        mag = WEIGHT_MAGNITUDES[(index // len(configs)) % len(WEIGHT_MAGNITUDES)]
+        kind = config.split("_")[0]
+        damped = "_damped" in config
+        n = _size(rng, 12, 160 if kind != "vspline" else 80, big_share=0.2, big_lo=80 if kind != "vspline" else 40)
+        east, north = gen.cloud(rng, n)
+        data = _data(rng, kind, east, north, run)
+        forces = None
+        if "fewer_forces" in config:
+            m = int(rng.integers(max(2, n // 6), max(3, n // 2)))
+            idx = rng.permutation(n)[:m]
+            jitter = 0.05 * _mean_spacing(east, north)
+            forces = (east[idx] + rng.normal(0, jitter, m), north[idx] + rng.normal(0, jitter, m))
+        damping = float(10 ** rng.uniform(-6, 1)) if damped else None
+        relative = (_weights(rng, n), _weights(rng, n) * gen.log_uniform(rng, 1e-1, 1e1)) if kind == "vspline" else _weights(rng, n)
+        scaled = tuple(mag * w for w in relative) if kind == "vspline" else mag * relative
+        state = rng.bit_generator.state
+
+        def fresh():
+            rng.bit_generator.state = state
+            return _make(rng, verde, kind, east, north, damping=damping, forces=forces)
+
+        shape = lay.logical_shape(rng, n)
+        est, cfg = fresh()
+        coords_fit, d_fit, w_fit, layouts = _present_fit(run, rng, kind, east, north, data, scaled, shape)
+        _fit(est, coords_fit, d_fit, w_fit)
+        qe, qn = _queries(rng, east, north)
+        coords = (np.concatenate([east, qe]), np.concatenate([north, qn]))
+        got = _predict(est, coords)
+        rec = _lookup(est)
+        run.count("weight_magnitude_class:%s:%.0e" % (config, mag))
+        run.sample("wmag", {"config": dict(cfg, layouts=layouts), "class": config, "weight_magnitude": mag, "n": n,
+                            "normalised_gradient": None if rec is None else rec.gradient,
+                            "reference_kappa": None if rec is None or rec.lsq is None else rec.lsq.cond})
+        if damped or mag == 1.0:
+            return  # damped fits depend on the magnitude: decided by the optimality / prediction-agreement monitors with the weights as given
+        est1, _ = fresh()  # undamped: fit(w) == fit(c w) with c spanning up to 15 decades
+        _fit(est1, (east, north), data, relative)
+        base = _predict(est1, coords)
+        rec1 = _lookup(est1)
+        if rec1 is None or rec1.skip or not rec1.informative:
+            run.count("skipped:weight_scale_invariance:" + ("no_record" if rec1 is None else (rec1.skip or "uninformative")[:40]))
+            return
+        scale = max(float(np.abs(base).max()), float(np.abs(rec1.data).max()))
+        tol = 2 * rec1.rel_tol * scale
+        err = float(np.max(np.abs(got - base)))
+        run.evaluated("weight_scale_invariance")
+        run.count("weight_scale_invariance:magnitude:%.0e" % mag)
+        if not err <= tol:
+            run.violation("weight_scale_invariance",
+                          "undamped %s: fits with weights w and %.0e*w differ by %.3g > tolerance %.3g (kappa %.3g)" % (config, mag, err, tol, rec1.lsq.cond),
+                          {"class": config, "config": cfg, "easting": east, "northing": north, "data": list(data) if isinstance(data, tuple) else data,
+                           "weights": list(relative) if isinstance(relative, tuple) else relative, "factor": mag, "prediction_w": base, "prediction_cw": got,
+                           "force_coords": rec1.force}, key="wmag:%s:%.0e" % (config, mag))
+            return
+        if tol > 0:
+            run.observe_max("weight_scale_invariance_err_over_tol:magnitude:%.0e" % mag, err / tol)
+        run.mark_nontrivial("wmag", config, mag, east, north, list(data) if isinstance(data, tuple) else data)
     else:
         raise ValueError(stream)
 
